@@ -434,7 +434,8 @@ func CheckKVStep(op Op, env Env, pre, post KVObs, res Result) []Violation {
 		}
 	} else {
 		// ---- success: post-state
-		if (op.EP == "WriteSubDoc" || op.EP == "SubdocInsert") && postDoc.Row && rowString(preRow) == rowString(postRow) {
+		if (op.EP == "WriteSubDoc" || op.EP == "SubdocInsert") && postDoc.Row && rowString(preRow) == rowString(postRow) &&
+			!(exp.Body != nil && preDoc.Live && JSONEqual(exp.Body, preDoc.Body)) { // (a write that changes nothing may be skipped)
 			// "equivalent to atomically reading the document, setting the property and writing it back"
 			c.add("C18", "success-without-write", "the call reported success (CAS %d) but the document was not written: %s", res.Cas, rowString(postRow))
 		}
